@@ -18,6 +18,7 @@
 import DDS.Proofs.Num
 import DDS.Generated.CodeBits
 import DDS.Model.Sketch
+import DDS.Proofs.RealInst
 
 set_option linter.unusedVariables false
 
@@ -72,17 +73,17 @@ theorem sigMask_eq : (4503599627370495 : Nat) = 2 ^ 52 - 1 := by decide
 /-- `oneMask` -/
 theorem oneMask_eq : (4607182418800017408 : Nat) = 2 ^ 52 * 1023 := by decide
 
-theorem and_expMask_shift (ex frac : Nat) (hex : ex < 2048) (hfrac : frac < 2 ^ 52) :
-    ((ex * 2 ^ 52 + frac) &&& 9218868437227405312) >>> 52 = ex := by
+theorem and_expMask_shift (sg ex frac : Nat) (hex : ex < 2048) (hfrac : frac < 2 ^ 52) :
+    ((sg * 2 ^ 63 + ex * 2 ^ 52 + frac) &&& 9218868437227405312) >>> 52 = ex := by
   rw [Nat.shiftRight_and_distrib]
   have h1 : (9218868437227405312 : Nat) >>> 52 = 2 ^ 11 - 1 := by decide
-  have h2 : (ex * 2 ^ 52 + frac) >>> 52 = ex := by
+  have h2 : (sg * 2 ^ 63 + ex * 2 ^ 52 + frac) >>> 52 = sg * 2048 + ex := by
     rw [Nat.shiftRight_eq_div_pow]; omega
   rw [h1, h2, Nat.and_two_pow_sub_one_eq_mod]
   omega
 
-theorem and_sigMask (ex frac : Nat) (hfrac : frac < 2 ^ 52) :
-    (ex * 2 ^ 52 + frac) &&& 4503599627370495 = frac := by
+theorem and_sigMask (hi frac : Nat) (hfrac : frac < 2 ^ 52) :
+    (hi * 2 ^ 52 + frac) &&& 4503599627370495 = frac := by
   rw [sigMask_eq, Nat.and_two_pow_sub_one_eq_mod]
   omega
 
@@ -98,5 +99,459 @@ theorem expField_and_expMask (E : Nat) (hE : E < 2048) :
 theorem or_fields (E frac : Nat) (hfrac : frac < 2 ^ 52) :
     (E * 2 ^ 52) ||| frac = E * 2 ^ 52 + frac := by
   rw [Nat.mul_comm, ← Nat.two_pow_add_eq_or_of_lt hfrac]
+
+/-! ## the fields of a positive normal float -/
+
+/-- the value with exponent field `ex ≥ 1` and fraction field `frac` -/
+def valOf (ex frac : Nat) : Rat := ((2 ^ 52 + frac : Nat) : Rat) * pow2 ((ex : Int) - 1075)
+
+/-- a positive representable `q ≥ 2^-1022` is `valOf ex frac` for unique fields -/
+theorem normal_fields {q : Rat} (hq : 0 < q) (hr : isRep q = true) (hn : pow2 (-1022) ≤ q) :
+    ∃ ex frac : Nat, 1 ≤ ex ∧ ex ≤ 2046 ∧ frac < 2 ^ 52 ∧ q = valOf ex frac := by
+  obtain ⟨hr', hlt⟩ := rpv_of_isRep_pos hq hr
+  rcases rep_pos_cases hq hr' hlt with ⟨frac, h1, h2, rfl⟩ | ⟨ex, frac, h1, h2, h3, rfl⟩
+  · exfalso
+    have : (frac : Rat) * pow2 (-1074) < pow2 (-1022) := by
+      rw [show (-1022:Int) = 52 + -1074 by norm_num, pow2_add, pow2_52]
+      apply mul_lt_mul_of_pos_right _ (pow2_pos _)
+      exact_mod_cast h2
+    linarith
+  · exact ⟨ex, frac, h1, h2, h3, rfl⟩
+
+theorem valOf_pos (ex frac : Nat) : 0 < valOf ex frac := by
+  unfold valOf
+  refine mul_pos ?_ (pow2_pos _)
+  have : 0 < 2 ^ 52 + frac := by omega
+  exact_mod_cast this
+
+/-- `valOf ex frac = (1 + frac/2^52) · 2^(ex − 1023)` -/
+theorem valOf_eq (ex frac : Nat) :
+    valOf ex frac = (((2 ^ 52 + frac : Nat) : Rat) * pow2 (-52)) * pow2 ((ex : Int) - 1023) := by
+  unfold valOf
+  rw [mul_assoc, ← pow2_add]
+  congr 2; ring
+
+theorem sig_bounds (frac : Nat) (h : frac < 2 ^ 52) :
+    1 ≤ ((2 ^ 52 + frac : Nat) : Rat) * pow2 (-52) ∧ ((2 ^ 52 + frac : Nat) : Rat) * pow2 (-52) < 2 := by
+  have hM1 : ((2^52 : Int) : Rat) ≤ ((2 ^ 52 + frac : Nat) : Rat) := by
+    have : (2^52 : Int) ≤ ((2 ^ 52 + frac : Nat) : Int) := by omega
+    exact_mod_cast this
+  have hM2 : ((2 ^ 52 + frac : Nat) : Rat) < ((2^53 : Int) : Rat) := by
+    have : ((2 ^ 52 + frac : Nat) : Int) < (2^53 : Int) := by omega
+    exact_mod_cast this
+  constructor
+  · have : pow2 (52 + -52) ≤ ((2 ^ 52 + frac : Nat) : Rat) * pow2 (-52) := by
+      rw [pow2_add, pow2_52]; exact mul_le_mul_of_nonneg_right hM1 (pow2_pos _).le
+    simpa [pow2_zero] using this
+  · have : ((2 ^ 52 + frac : Nat) : Rat) * pow2 (-52) < pow2 (53 + -52) := by
+      rw [pow2_add, pow2_53]; exact mul_lt_mul_of_pos_right hM2 (pow2_pos _)
+    simpa [pow2_one] using this
+
+theorem floorLog2_valOf (ex frac : Nat) (h : frac < 2 ^ 52) :
+    floorLog2 (valOf ex frac) = (ex : Int) - 1023 := by
+  obtain ⟨h1, h2⟩ := sig_bounds frac h
+  apply floorLog2_unique
+  · rw [valOf_eq]
+    have := mul_le_mul_of_nonneg_right h1 (pow2_pos ((ex : Int) - 1023)).le
+    rwa [one_mul] at this
+  · rw [valOf_eq, pow2_succ]
+    exact mul_lt_mul_of_pos_right h2 (pow2_pos _)
+
+theorem valOf_div (ex frac : Nat) :
+    valOf ex frac / pow2 ((ex : Int) - 1023) = ((2 ^ 52 + frac : Nat) : Rat) * pow2 (-52) := by
+  rw [valOf_eq, mul_div_assoc, div_self (pow2_ne_zero _), mul_one]
+
+theorem valOf_lt (ex frac : Nat) (h : frac < 2 ^ 52) :
+    valOf ex frac < pow2 ((ex : Int) - 1023 + 1) := by
+  rw [valOf_eq, pow2_succ]
+  exact mul_lt_mul_of_pos_right (sig_bounds frac h).2 (pow2_pos _)
+
+/-- every `valOf ex frac` with a normal exponent field is a float -/
+theorem isRep_valOf (ex frac : Nat) (h1 : 1 ≤ ex) (h2 : ex ≤ 2046) (h3 : frac < 2 ^ 52) :
+    isRep (valOf ex frac) = true := by
+  have hcast : ((2 ^ 52 + frac : Nat) : Rat) = (((2 ^ 52 + frac : Nat) : Int) : Rat) := by norm_cast
+  have hlt := valOf_lt ex frac h3
+  unfold valOf at hlt ⊢
+  rw [hcast] at hlt ⊢
+  apply isRep_dyadic
+  · rw [abs_le]; constructor <;> omega
+  · omega
+  · rw [abs_of_nonneg (by positivity)]
+    exact lt_of_lt_of_le hlt (pow2_mono (by omega))
+
+theorem valOf_1023 (frac : Nat) : valOf 1023 frac = ((2 ^ 52 + frac : Nat) : Rat) * pow2 (-52) := by
+  rw [valOf_eq]
+  have e0 : (((1023 : Nat) : Int)) - 1023 = 0 := by norm_num
+  rw [e0, pow2_zero, mul_one]
+
+/-! ## float ⇄ bits of the prelude, in terms of fields -/
+
+theorem float64frombits_eq (b : BitVec 64) : float64frombits b = decodeNat b.toNat := by
+  unfold float64frombits
+  rw [ofBits_eq]
+  rfl
+
+theorem float64bits_pos {q : Rat} (hq : 0 < q) :
+    (float64bits (.fin q)).toNat = bitsOfPos q % 2 ^ 64 := by
+  unfold float64bits toBits
+  simp only
+  rw [if_neg hq.ne', if_pos hq]
+  simp
+
+/-- the bits of `valOf ex frac` are `ex·2^52 + frac` -/
+theorem float64bits_valOf (ex frac : Nat) (h1 : 1 ≤ ex) (h2 : ex ≤ 2046) (h3 : frac < 2 ^ 52) :
+    (float64bits (.fin (valOf ex frac))).toNat = ex * 2 ^ 52 + frac := by
+  rw [float64bits_pos (valOf_pos ex frac)]
+  unfold valOf
+  rw [bitsOfPos_normal ex frac h1 h3]
+  omega
+
+/-- decoding `E·2^52 + frac` (positive normal pattern) -/
+theorem decodeNat_valOf (E frac : Nat) (h1 : 1 ≤ E) (h2 : E ≤ 2046) (h3 : frac < 2 ^ 52) :
+    decodeNat (E * 2 ^ 52 + frac) = .fin (valOf E frac) := by
+  have := decodeNat_fields 0 E frac (by norm_num) (by omega) h3
+  simp only [Nat.zero_mul, Nat.zero_add, if_true] at this
+  rw [this, if_neg (by omega)]
+  rfl
+
+theorem le_fin (a b : Rat) : F64.le (.fin a) (.fin b) = decide (a ≤ b) := by
+  unfold F64.le F64.lt F64.eq
+  by_cases h : a < b
+  · simp [h, h.le]
+  · by_cases h2 : a = b
+    · simp [h2]
+    · have : ¬ a ≤ b := fun hle => h (lt_of_le_of_ne hle h2)
+      simp [h, h2, this]
+
+theorem lt_fin (a b : Rat) : F64.lt (.fin a) (.fin b) = decide (a < b) := rfl
+
+/-! ## `getExponent` -/
+
+/-- on ANY pattern with exponent field `ex` (sign `sg`, fraction `frac`): the unbiased exponent -/
+theorem getExponent_fields (b : BitVec 64) (sg ex frac : Nat) (hex : ex < 2048) (hfrac : frac < 2 ^ 52)
+    (hb : b.toNat = sg * 2 ^ 63 + ex * 2 ^ 52 + frac) :
+    getExponent b = .fin (((ex : Int) - 1023 : Int) : Rat) := by
+  unfold getExponent
+  have hn : ((b &&& 9218868437227405312#64) >>> 52).toNat = ex := by
+    rw [BitVec.toNat_ushiftRight, BitVec.toNat_and, hb]
+    exact and_expMask_shift sg ex frac hex hfrac
+  have hi : ((b &&& 9218868437227405312#64) >>> 52).toInt = (ex : Int) := by
+    rw [BitVec.toInt_eq_toNat_cond, hn]
+    split <;> omega
+  rw [hi]
+  unfold F64.ofInt
+  apply roundF64_int
+  rw [abs_le]; constructor <;> omega
+
+/-- **`getExponent` of the bits of a positive normal float is `⌊log₂ q⌋`, exactly** -/
+theorem getExponent_spec {q : Rat} (hq : 0 < q) (hr : isRep q = true) (hn : pow2 (-1022) ≤ q) :
+    getExponent (float64bits (.fin q)) = F64.ofInt (floorLog2 q) ∧
+    F64.ofInt (floorLog2 q) = .fin ((floorLog2 q : Int) : Rat) ∧
+    -1022 ≤ floorLog2 q ∧ floorLog2 q ≤ 1023 := by
+  obtain ⟨ex, frac, h1, h2, h3, rfl⟩ := normal_fields hq hr hn
+  have hfl := floorLog2_valOf ex frac h3
+  have hb := float64bits_valOf ex frac h1 h2 h3
+  have hofInt : F64.ofInt (floorLog2 (valOf ex frac)) = .fin ((floorLog2 (valOf ex frac) : Int) : Rat) := by
+    unfold F64.ofInt
+    apply roundF64_int
+    rw [hfl, abs_le]; constructor <;> omega
+  refine ⟨?_, hofInt, by omega, by omega⟩
+  rw [hofInt, hfl]
+  exact getExponent_fields _ 0 ex frac (by omega) h3 (by rw [hb]; omega)
+
+/-! ## `getSignificandPlusOne` -/
+
+/-- on ANY pattern with fraction field `frac`: the float `1.frac` -/
+theorem getSignificandPlusOne_fields (b : BitVec 64) (hi frac : Nat) (hfrac : frac < 2 ^ 52)
+    (hb : b.toNat = hi * 2 ^ 52 + frac) :
+    getSignificandPlusOne b = .fin (((2 ^ 52 + frac : Nat) : Rat) * pow2 (-52)) := by
+  unfold getSignificandPlusOne
+  rw [float64frombits_eq, BitVec.toNat_or, BitVec.toNat_and, hb]
+  have hm : (4503599627370495#64).toNat = 4503599627370495 := by decide
+  have ho : (4607182418800017408#64).toNat = 1023 * 2 ^ 52 := by decide
+  rw [hm, ho, and_sigMask hi frac hfrac, Nat.or_comm, or_fields 1023 frac hfrac,
+    decodeNat_valOf 1023 frac (by norm_num) (by norm_num) hfrac]
+  unfold valOf
+  norm_num
+
+/-- **`getSignificandPlusOne` of the bits of a positive normal float is `q / 2^⌊log₂ q⌋ ∈ [1,2)`** -/
+theorem getSignificandPlusOne_spec {q : Rat} (hq : 0 < q) (hr : isRep q = true)
+    (hn : pow2 (-1022) ≤ q) :
+    getSignificandPlusOne (float64bits (.fin q)) = .fin (q / pow2 (floorLog2 q)) ∧
+    1 ≤ q / pow2 (floorLog2 q) ∧ q / pow2 (floorLog2 q) < 2 := by
+  obtain ⟨ex, frac, h1, h2, h3, rfl⟩ := normal_fields hq hr hn
+  rw [floorLog2_valOf ex frac h3, valOf_div]
+  refine ⟨?_, (sig_bounds frac h3).1, (sig_bounds frac h3).2⟩
+  exact getSignificandPlusOne_fields _ ex frac h3 (float64bits_valOf ex frac h1 h2 h3)
+
+/-! ## `buildFloat64` -/
+
+/-- the part of `buildFloat64` after the significand has been normalised -/
+def buildTail (exponent : Int) (significandPlusOne : F64) : F64 :=
+  if (decide ((1023 : Int) < exponent)) then
+    (GoSem.inf (1 : Int))
+  else
+    (GoSem.float64frombits (((BitVec.ofInt 64 ((exponent + (1023 : Int)) * (2 : Int) ^ (Int.toNat (52 : Int)))) &&& 9218868437227405312#64) ||| ((GoSem.float64bits significandPlusOne) &&& 4503599627370495#64)))
+
+/-- `buildFloat64` is the model's `buildFloatN` (`DDS/Model/Mapping.lean`) around `buildTail`:
+    normalise a significand `≥ 2` (halve, bump the exponent) or `< 1` (replace by 1), then
+    assemble the bits -/
+theorem buildFloat64_cases (e : Int) (s : F64) :
+    buildFloat64 e s =
+      if F64.le (.fin 2) s then buildTail (e + 1) (F64.div s (.fin 2))
+      else if F64.lt s (.fin 1) then buildTail e (.fin 1)
+      else buildTail e s := by
+  unfold buildFloat64 buildTail
+  by_cases h1 : F64.le (.fin 2) s = true
+  · simp only [h1, if_true]
+  · by_cases h2 : F64.lt s (.fin 1) = true
+    · simp only [h1, h2, Bool.false_eq_true, if_true, if_false]
+    · simp only [h1, h2, Bool.false_eq_true, if_false]
+
+theorem buildTail_overflow (e : Int) (s : F64) (he : 1023 < e) : buildTail e s = .pinf := by
+  unfold buildTail
+  rw [if_pos (by simpa using he)]
+  rfl
+
+/-- assembling exponent field `E ∈ [1, 2046]` with the fraction bits of any pattern -/
+theorem build_bits (E : Int) (hE1 : 1 ≤ E) (hE2 : E ≤ 2046) (sb : BitVec 64) (hi frac : Nat)
+    (hfrac : frac < 2 ^ 52) (hsb : sb.toNat = hi * 2 ^ 52 + frac) :
+    float64frombits ((BitVec.ofInt 64 (E * (2 : Int) ^ (Int.toNat (52 : Int))) &&& 9218868437227405312#64)
+        ||| (sb &&& 4503599627370495#64)) = .fin (valOf E.toNat frac) := by
+  obtain ⟨n, rfl⟩ : ∃ n : Nat, E = (n : Int) := ⟨E.toNat, by omega⟩
+  have hcast : (n : Int) * (2 : Int) ^ (Int.toNat (52 : Int)) = ((n * 2 ^ 52 : Nat) : Int) := by
+    have : Int.toNat (52 : Int) = 52 := rfl
+    rw [this]; push_cast; rfl
+  have hlt : n * 2 ^ 52 < 2 ^ 64 := by omega
+  have hm : (4503599627370495#64).toNat = 4503599627370495 := by decide
+  have he : (9218868437227405312#64).toNat = 9218868437227405312 := by decide
+  rw [hcast, BitVec.ofInt_natCast, float64frombits_eq, BitVec.toNat_or, BitVec.toNat_and,
+    BitVec.toNat_and, BitVec.toNat_ofNat, Nat.mod_eq_of_lt hlt, hm, he, hsb,
+    expField_and_expMask n (by omega), and_sigMask hi frac hfrac, or_fields n frac hfrac,
+    decodeNat_valOf n frac (by omega) (by omega) hfrac, Int.toNat_natCast]
+
+/-- the representable numbers of `[1, 2)` are the `valOf 1023 frac` -/
+theorem unit_fields {r : Rat} (hr : isRep r = true) (h1 : 1 ≤ r) (h2 : r < 2) :
+    ∃ frac : Nat, frac < 2 ^ 52 ∧ r = valOf 1023 frac := by
+  have hpos : 0 < r := by linarith
+  have hn : pow2 (-1022) ≤ r := by
+    have : pow2 (-1022) ≤ pow2 0 := pow2_mono (by norm_num)
+    rw [pow2_zero] at this; linarith
+  obtain ⟨ex, frac, e1, e2, e3, rfl⟩ := normal_fields hpos hr hn
+  have hfl := floorLog2_valOf ex frac e3
+  have h0 : floorLog2 (valOf ex frac) = 0 :=
+    floorLog2_unique (by rw [pow2_zero]; exact h1) (by rw [zero_add, pow2_one]; exact h2)
+  have : ex = 1023 := by omega
+  subst this
+  exact ⟨frac, e3, rfl⟩
+
+/-- **the in-contract case: `s ∈ [1,2)`, `−1022 ≤ e ≤ 1023` gives `2^e · s`, exactly** -/
+theorem buildTail_spec (e : Int) (he1 : -1022 ≤ e) (he2 : e ≤ 1023) {r : Rat}
+    (hr : isRep r = true) (h1 : 1 ≤ r) (h2 : r < 2) :
+    buildTail e (.fin r) = .fin (r * pow2 e) := by
+  obtain ⟨frac, hf, hrv⟩ := unit_fields hr h1 h2
+  unfold buildTail
+  rw [if_neg (by simpa using he2)]
+  have hb : (float64bits (.fin r)).toNat = 1023 * 2 ^ 52 + frac := by
+    rw [hrv]; exact float64bits_valOf 1023 frac (by norm_num) (by norm_num) hf
+  rw [build_bits (e + 1023) (by omega) (by omega) _ 1023 frac hf hb]
+  congr 1
+  rw [hrv, valOf_eq, valOf_eq]
+  have e1 : (((e + 1023).toNat : Nat) : Int) - 1023 = e := by omega
+  have e2 : (((1023 : Nat) : Int)) - 1023 = 0 := by norm_num
+  rw [e1, e2, pow2_zero, mul_one]
+
+theorem buildFloat64_spec (e : Int) (he1 : -1022 ≤ e) (he2 : e ≤ 1023) {r : Rat}
+    (hr : isRep r = true) (h1 : 1 ≤ r) (h2 : r < 2) :
+    buildFloat64 e (.fin r) = .fin (r * pow2 e) := by
+  rw [buildFloat64_cases, le_fin, lt_fin, decide_eq_false (not_le.mpr h2),
+    decide_eq_false (not_lt.mpr h1)]
+  simp only [Bool.false_eq_true, if_false]
+  exact buildTail_spec e he1 he2 hr h1 h2
+
+/-- halving a representable number of `[2, 4)` is exact and lands in `[1, 2)` -/
+theorem half_rep {r : Rat} (hr : isRep r = true) (h1 : 2 ≤ r) (h2 : r < 4) :
+    F64.div (.fin r) (.fin 2) = .fin (r / 2) ∧ isRep (r / 2) = true := by
+  have hpos : 0 < r := by linarith
+  have hn : pow2 (-1022) ≤ r := by
+    have : pow2 (-1022) ≤ pow2 0 := pow2_mono (by norm_num)
+    rw [pow2_zero] at this; linarith
+  obtain ⟨ex, frac, e1, e2, e3, rfl⟩ := normal_fields hpos hr hn
+  have hfl := floorLog2_valOf ex frac e3
+  have h0 : floorLog2 (valOf ex frac) = 1 :=
+    floorLog2_unique (by rw [pow2_one]; exact h1)
+      (by rw [show (1:Int) + 1 = 2 by norm_num, show pow2 2 = 4 by simp [pow2_eq_zpow]; norm_num]; exact h2)
+  have hex : ex = 1024 := by omega
+  subst hex
+  have hhalf : valOf 1024 frac / 2 = valOf 1023 frac := by
+    unfold valOf
+    have : pow2 (((1024 : Nat) : Int) - 1075) = 2 * pow2 (((1023 : Nat) : Int) - 1075) := by
+      rw [← pow2_succ]; congr 1
+    rw [this]; ring
+  have hrep : isRep (valOf 1023 frac) = true :=
+    isRep_valOf 1023 frac (by norm_num) (by norm_num) e3
+  refine ⟨?_, by rw [hhalf]; exact hrep⟩
+  show (if (2 : Rat) = 0 then F64.nan else roundF64 (valOf 1024 frac / 2)) = _
+  rw [if_neg (by norm_num), hhalf]
+  exact roundF64_of_isRep hrep
+
+/-- **a significand that rounding pushed to `[2, 4)`: still `2^e · s`, or `+Inf` when the bumped
+    exponent leaves the range** (`−1023 ≤ e` suffices here) -/
+theorem buildFloat64_spec_ge2 (e : Int) (he1 : -1023 ≤ e) {r : Rat}
+    (hr : isRep r = true) (h1 : 2 ≤ r) (h2 : r < 4) :
+    buildFloat64 e (.fin r) = if e + 1 ≤ 1023 then .fin (r * pow2 e) else .pinf := by
+  obtain ⟨hdiv, hrep⟩ := half_rep hr h1 h2
+  rw [buildFloat64_cases, le_fin, decide_eq_true h1]
+  simp only [if_true]
+  rw [hdiv]
+  by_cases he : e + 1 ≤ 1023
+  · rw [if_pos he, buildTail_spec (e + 1) (by omega) he hrep (by linarith) (by linarith), pow2_succ]
+    congr 1; ring
+  · rw [if_neg he]
+    exact buildTail_overflow _ _ (by omega)
+
+/-- the same read as the task states it: the result for `(e+1, r/2)` -/
+theorem buildFloat64_spec_ge2' (e : Int) (he1 : -1023 ≤ e) (he2 : e + 1 ≤ 1023) {r : Rat}
+    (hr : isRep r = true) (h1 : 2 ≤ r) (h2 : r < 4) :
+    buildFloat64 e (.fin r) = .fin ((r / 2) * pow2 (e + 1)) ∧
+    buildFloat64 e (.fin r) = buildFloat64 (e + 1) (.fin (r / 2)) := by
+  obtain ⟨hdiv, hrep⟩ := half_rep hr h1 h2
+  have h := buildFloat64_spec_ge2 e he1 hr h1 h2
+  rw [if_pos he2] at h
+  have h' := buildFloat64_spec (e + 1) (by omega) he2 hrep (by linarith) (by linarith)
+  have hv : r / 2 * pow2 (e + 1) = r * pow2 e := by rw [pow2_succ]; ring
+  exact ⟨by rw [h, hv], by rw [h, h', hv]⟩
+
+theorem isRep_one : isRep 1 = true := by
+  have := isRep_int 1 (by norm_num)
+  simpa using this
+
+/-- **a significand that fell below 1 (any finite value `< 1`, even non-positive or
+    non-representable) is replaced by 1: the result is `2^e`** -/
+theorem buildFloat64_spec_lt1 (e : Int) (he1 : -1022 ≤ e) (he2 : e ≤ 1023) {r : Rat} (h1 : r < 1) :
+    buildFloat64 e (.fin r) = .fin (pow2 e) := by
+  have h2 : ¬ (2 : Rat) ≤ r := by linarith
+  rw [buildFloat64_cases, le_fin, lt_fin, decide_eq_false h2, decide_eq_true h1]
+  simp only [Bool.false_eq_true, if_false, if_true]
+  rw [buildTail_spec e he1 he2 isRep_one (le_refl _) (by norm_num), one_mul]
+
+/-! ## round trip: the three helpers together -/
+
+/-- **decompose and rebuild**: for a positive normal float, `buildFloat64` applied to the exponent
+    and significand that the two getters extract gives the float back -/
+theorem build_get_roundtrip {q : Rat} (hq : 0 < q) (hr : isRep q = true) (hn : pow2 (-1022) ≤ q) :
+    buildFloat64 (floorLog2 q) (getSignificandPlusOne (float64bits (.fin q))) = .fin q := by
+  obtain ⟨hs, hs1, hs2⟩ := getSignificandPlusOne_spec hq hr hn
+  obtain ⟨_, _, hl1, hl2⟩ := getExponent_spec hq hr hn
+  have hrep : isRep (q / pow2 (floorLog2 q)) = true := by
+    obtain ⟨ex, frac, e1, e2, e3, rfl⟩ := normal_fields hq hr hn
+    rw [floorLog2_valOf ex frac e3, valOf_div]
+    rw [← valOf_1023]
+    exact isRep_valOf 1023 frac (by norm_num) (by norm_num) e3
+  rw [hs, buildFloat64_spec _ hl1 hl2 hrep hs1 hs2, div_mul_cancel₀ _ (pow2_ne_zero _)]
+
+/-! ## the hypotheses are satisfiable, and needed -/
+
+example : getExponent (float64bits (.fin 3)) = .fin 1 ∧
+    getSignificandPlusOne (float64bits (.fin 3)) = .fin (3 / 2) ∧
+    buildFloat64 1 (.fin (3 / 2)) = .fin 3 := by
+  have hq : (0 : Rat) < 3 := by norm_num
+  have hr : isRep 3 = true := by decide +kernel
+  have hn : pow2 (-1022) ≤ 3 := by decide +kernel
+  have hfl : floorLog2 3 = 1 := by decide +kernel
+  obtain ⟨h1, h2, _⟩ := getExponent_spec hq hr hn
+  obtain ⟨h3, _⟩ := getSignificandPlusOne_spec hq hr hn
+  have h4 := buildFloat64_spec 1 (by norm_num) (by norm_num) (r := 3 / 2) (by decide +kernel)
+    (by norm_num) (by norm_num)
+  rw [hfl] at h1 h2 h3
+  refine ⟨by rw [h1, h2]; norm_num, by rw [h3]; norm_num [pow2_one], by rw [h4, pow2_one]; norm_num⟩
+
+example : buildFloat64 1023 (.fin 2) = .pinf := by
+  have := buildFloat64_spec_ge2 1023 (by norm_num) (r := 2) (by decide +kernel) (by norm_num) (by norm_num)
+  rw [this, if_neg (by norm_num)]
+
+example : buildFloat64 3 (.fin (1 / 2)) = .fin 8 := by
+  rw [buildFloat64_spec_lt1 3 (by norm_num) (by norm_num) (by norm_num)]
+  simp [pow2_eq_zpow]; norm_num
+
+/-- **normality is needed**: on a positive SUBNORMAL float `getExponent` returns −1023 whatever the
+    value (the exponent field is 0), which is not `⌊log₂ q⌋` (that is `≤ −1023`, and `< −1023` for
+    `q < 2^-1023`).  The mappings only pass values `≥ MinIndexableValue ≥ 2^-1022`. -/
+theorem getExponent_subnormal {q : Rat} (hq : 0 < q) (hr : isRep q = true) (hs : q < pow2 (-1022)) :
+    getExponent (float64bits (.fin q)) = .fin (-1023) := by
+  obtain ⟨hr', hlt⟩ := rpv_of_isRep_pos hq hr
+  rcases rep_pos_cases hq hr' hlt with ⟨frac, h1, h2, rfl⟩ | ⟨ex, frac, h1, h2, h3, rfl⟩
+  · have hb : (float64bits (.fin ((frac : Rat) * pow2 (-1074)))).toNat = frac := by
+      rw [float64bits_pos hq, bitsOfPos_sub frac h1 h2]; omega
+    have := getExponent_fields _ 0 0 frac (by norm_num) h2 (by rw [hb]; omega)
+    rw [this]; norm_num
+  · exfalso
+    have hfl := floorLog2_valOf ex frac h3
+    have hlo := (floorLog2_spec _ (valOf_pos ex frac)).1
+    rw [hfl] at hlo
+    have : pow2 (-1022) ≤ pow2 ((ex : Int) - 1023) := pow2_mono (by omega)
+    have hv : valOf ex frac < pow2 (-1022) := hs
+    linarith
+
+example : getExponent (float64bits (.fin (pow2 (-1074)))) = .fin (-1023) ∧
+    floorLog2 (pow2 (-1074)) = -1074 := by
+  refine ⟨?_, floorLog2_pow2 _⟩
+  apply getExponent_subnormal (pow2_pos _)
+  · have := isRep_dyadic 1 (-1074) (by norm_num) (by norm_num)
+      (by rw [Int.cast_one, abs_one, one_mul]; exact pow2_strictMono (by norm_num))
+    rwa [Int.cast_one, one_mul] at this
+  · exact pow2_strictMono (by norm_num)
+
+/-! ## the real-number reading (`instMOpsReal`, `DDS/Proofs/RealInst.lean`)
+
+  `MOps.exponentOf x = ⌊log₂ x⌋`, `MOps.significandPlusOne x = x / 2^⌊log₂ x⌋`,
+  `MOps.buildFloat e s = 2^e · s` over `ℝ`: on positive normal floats the generated bit helpers
+  compute exactly these real numbers (no rounding at all). -/
+
+theorem pow2_cast (e : Int) : ((pow2 e : Rat) : ℝ) = (2 : ℝ) ^ e := by
+  rw [pow2_eq_zpow]; push_cast; rfl
+
+/-- the rational `floorLog2` is the real `⌊log₂ ·⌋` -/
+theorem floorLog2_eq_floor_logb {q : Rat} (hq : 0 < q) :
+    floorLog2 q = ⌊Real.logb 2 (q : ℝ)⌋ := by
+  obtain ⟨h1, h2⟩ := floorLog2_spec q hq
+  have hqR : (0 : ℝ) < (q : ℝ) := by exact_mod_cast hq
+  symm
+  rw [Int.floor_eq_iff]
+  constructor
+  · rw [Real.le_logb_iff_rpow_le (by norm_num) hqR, Real.rpow_intCast, ← pow2_cast]
+    exact_mod_cast h1
+  · rw [Real.logb_lt_iff_lt_rpow (by norm_num) hqR]
+    have : ((floorLog2 q : ℤ) : ℝ) + 1 = ((floorLog2 q + 1 : ℤ) : ℝ) := by push_cast; ring
+    rw [this, Real.rpow_intCast, ← pow2_cast]
+    exact_mod_cast h2
+
+/-- `getExponent` computes the real `exponentOf` -/
+theorem getExponent_real {q : Rat} (hq : 0 < q) (hr : isRep q = true) (hn : pow2 (-1022) ≤ q) :
+    ∃ v : Rat, getExponent (float64bits (.fin q)) = .fin v ∧
+      (v : ℝ) = MOps.exponentOf ((q : Rat) : ℝ) := by
+  obtain ⟨h1, h2, _⟩ := getExponent_spec hq hr hn
+  refine ⟨((floorLog2 q : Int) : Rat), by rw [h1, h2], ?_⟩
+  show (((floorLog2 q : Int) : Rat) : ℝ) = ((⌊Real.logb 2 (q : ℝ)⌋ : Int) : ℝ)
+  rw [floorLog2_eq_floor_logb hq]
+  push_cast; rfl
+
+/-- `getSignificandPlusOne` computes the real `significandPlusOne` -/
+theorem getSignificandPlusOne_real {q : Rat} (hq : 0 < q) (hr : isRep q = true)
+    (hn : pow2 (-1022) ≤ q) :
+    ∃ v : Rat, getSignificandPlusOne (float64bits (.fin q)) = .fin v ∧
+      (v : ℝ) = MOps.significandPlusOne ((q : Rat) : ℝ) := by
+  obtain ⟨h1, _, _⟩ := getSignificandPlusOne_spec hq hr hn
+  refine ⟨q / pow2 (floorLog2 q), h1, ?_⟩
+  show ((q / pow2 (floorLog2 q) : Rat) : ℝ) = (q : ℝ) / (2 : ℝ) ^ ⌊Real.logb 2 (q : ℝ)⌋
+  rw [← floorLog2_eq_floor_logb hq, Rat.cast_div, pow2_cast]
+
+/-- `buildFloat64` computes the real `buildFloat` (in-contract arguments) -/
+theorem buildFloat64_real (e : Int) (he1 : -1022 ≤ e) (he2 : e ≤ 1023) {r : Rat}
+    (hr : isRep r = true) (h1 : 1 ≤ r) (h2 : r < 2) :
+    ∃ v : Rat, buildFloat64 e (.fin r) = .fin v ∧ (v : ℝ) = MOps.buildFloat e ((r : Rat) : ℝ) := by
+  refine ⟨r * pow2 e, buildFloat64_spec e he1 he2 hr h1 h2, ?_⟩
+  show ((r * pow2 e : Rat) : ℝ) = (2 : ℝ) ^ e * (r : ℝ)
+  rw [Rat.cast_mul, pow2_cast, mul_comm]
 
 end DDS.GenBits
